@@ -19,7 +19,8 @@ Kernels (in file order)
                      gen_q2_function_g (which of datastore / namespace the registered wrapper passes on); the
                      decorator skeletons around them (`sig = signature(f)`, `def g(*args, **kwargs)`,
                      `return f(*args, **kwargs)`, `functions[fname] = g`) are matched as text
-  interpreter_text   the six `interpret` methods, interpret() and query() are compared as TEXT (not translated)
+  (the interpreter side - the six `interpret` methods, interpret(), query(), the composition of the decorators around
+   a built-in - is translated by translate/k_query_interp.py, state-monad mode, appended to the same GenQuery.v)
   query_footer       End of the Section
 
 Idioms (what the translator trusts; each is visible in the generated text)
@@ -1401,74 +1402,6 @@ def tr_q2_function(repo):
     return fn.definition()
 
 
-class _Normalise(ast.NodeTransformer):
-    """drop docstrings and logger calls, blank the message of every raise"""
-
-    def generic_visit(self, node):
-        node = super().generic_visit(node)
-        for field in ("body", "orelse", "finalbody"):
-            b = getattr(node, field, None)
-            if isinstance(b, list):
-                b = [x for x in b if not is_skippable(x)]
-                setattr(node, field, b or ([ast.Pass()] if field == "body" else []))
-        return node
-
-    def visit_Raise(self, node):
-        if isinstance(node.exc, ast.Call) and isinstance(node.exc.func, ast.Name):
-            return ast.Raise(exc=ast.Call(func=node.exc.func, args=[], keywords=[]), cause=node.cause)
-        return node
-
-
-INTERPRETER_TEXT = {
-    "QInteger.interpret": "return self.value",
-    "QString.interpret": "return self.value",
-    "QVariable.interpret": "if self.name not in namespace:\n    raise QueryInterpretException()\n"
-                           "namespace[self.name] = self.value\nreturn self.value",
-    "QFunction.interpret": "if self.name not in functions:\n    raise QueryInterpretException()\n"
-                           "call_args = [datastore, namespace]\nfor arg in self.args:\n"
-                           "    call_args.append(arg.interpret(datastore, namespace))\n"
-                           "try:\n    result = functions[self.name](*call_args)\nexcept TypeError:\n"
-                           "    raise QueryInterpretException() from None\nreturn result",
-    "QDict.interpret": "expanded_dict = {}\nfor key, value in self.value.items():\n"
-                       "    expanded_dict[key] = value.interpret(datastore, namespace)\nreturn expanded_dict",
-    "QList.interpret": "expanded_list = []\nfor value in self.value:\n"
-                       "    expanded_list.append(value.interpret(datastore, namespace))\nreturn expanded_list",
-    "interpret": "namespace[var.name] = val.interpret(datastore, namespace)",
-    "query": "namespace = create_namespace()\nnamespace['NAME'] = name\nnamespace['STARTTIME'] = starttime.isoformat()\n"
-             "namespace['ENDTIME'] = endtime.isoformat()\nquery_stmts = query.split(';')\n"
-             "for statement in query_stmts:\n    statement = statement.strip()\n    if statement:\n"
-             "        var, val = parse(statement, namespace)\n        interpret(var, val, namespace, datastore)\n"
-             "result = get_return(namespace)\nreturn result",
-}
-INTERPRETER_ARGS = {"interpret": ["var", "val", "namespace", "datastore"],
-                    "query": ["name", "query", "starttime", "endtime", "datastore"]}
-
-
-@_guard
-def tr_interpreter_text(repo):
-    """The interpreter side (the six `interpret` methods, interpret(), query()) is NOT re-translated: its text
-    (docstrings, logger calls and exception messages removed) is compared with the text Model/Query.v's interp /
-    interpret_stmt / run_stmts / run were written against.  Any edit there breaks the tie (also a harmless one)."""
-    mod = Module(repo)
-    for key, want in INTERPRETER_TEXT.items():
-        if "." in key:
-            cls, name = key.split(".")
-            fn = mod.method(cls, name)
-            args = ["self", "datastore", "namespace"]
-        else:
-            fn = mod.function(key)
-            args = INTERPRETER_ARGS[key]
-        if [a.arg for a in fn.args.args] != args or fn.args.vararg or fn.args.kwarg or fn.args.defaults:
-            raise Fail(f"{key}: signature changed")
-        if [d for d in fn.decorator_list]:
-            raise Fail(f"{key}: decorated")
-        body = _Normalise().visit(ast.Module(body=list(fn.body), type_ignores=[]))
-        got = ast.unparse(ast.fix_missing_locations(body))
-        if got != want:
-            raise Fail(f"{key}: the text the model was written against changed: {got!r}")
-    return "(* interpret methods, interpret(), query(): text unchanged *)\nDefinition gen_interpreter_text_ok : bool := true.\n"
-
-
 @_guard
 def tr_footer(repo):
     return "End Gen.\n"
@@ -1480,6 +1413,5 @@ KERNELS = {
     + [("qtypes", tr_qtypes), ("_parse_token", tr_parse_token), ("parse_methods", tr_parse_methods),
        ("parse", tr_parse), ("create_namespace", tr_create_namespace), ("get_return", tr_get_return),
        ("_verify_variable_is_type", tr_verify_type), ("q2_typecheck", tr_typecheck), ("q2_function", tr_q2_function),
-       ("interpreter_text", tr_interpreter_text),
        ("query_footer", tr_footer)],
 }
